@@ -312,4 +312,219 @@ def sa_post(ctx):
 SA_UNIT = Unit("C19.Stack.as_stdlib_summary", TY + "Stack.as_stdlib_summary", sa_setup, post=[Clause("C19.summary_is_from_list_of_own_entries", sa_post)],
                allowed_raise=lambda ctx: BoolVal(False), **COMMON)
 
-UNITS = [SS_UNIT, FC_UNIT, FP_UNIT, cs_unit(), SA_UNIT]
+
+# ------------------------------------------------------------------------------------------------ Formattable.format / __str__
+register_class("FormatOptions")
+fmt_lines = Function("Formattable._format", Val, Val, Val)          # (self, opts) -> list of lines
+fmt_public = Function("Formattable.format", Val, Val)               # (self) -> format() with default options
+join_of = Function("str.join", Val, Val, Val)                       # (separator, sequence) -> str
+
+
+def ff_setup(ex, p):
+    self = sym_ref(p, "self", "Stack")
+    ao, sc, sh = sym_bool(p, "ascii_only"), sym_bool(p, "show_contexts"), sym_bool(p, "show_hidden_frames")
+    p.env.update(self=self, ascii_only=ao, show_contexts=sc, show_hidden_frames=sh)
+    def ctor_opts(ex_, p_, args, kw, node):
+        if args or set(kw) != {"ascii_only", "show_contexts", "show_hidden_frames"}:
+            raise Unsupported("FormatOptions() call shape")
+        o = p_.new_obj("FormatOptions", **{k: v.t for k, v in kw.items()})
+        return [("ok", p_, SV(o, ty="FormatOptions"))]
+    def m_format(ex_, p_, args, kw, node):
+        if len(args) != 2 or kw:
+            raise Unsupported("_format call shape")
+        p_.ghost["fmt_call"] = (args[0].t, args[1].t, p_.snap())
+        return [("ok", p_, seq_sv(fmt_lines(args[0].t, args[1].t)))]
+    ex.unit.bindings["FormatOptions"] = ctor_opts
+    ex.unit.methods[("Stack", "_format")] = m_format
+    return dict(self=self, ao=ao, sc=sc, sh=sh)
+
+
+def ff_post(ctx):
+    a = ctx.args
+    call = ctx.p.ghost.get("fmt_call")
+    if call is None:
+        return BoolVal(False)
+    recv, opts, H = call
+    # the public flags reach _format in their own fields of ONE FormatOptions object, and its lines are returned unchanged
+    return And(recv == a["self"].t, ctx.result.t == fmt_lines(recv, opts), is_kind(opts, "FormatOptions"),
+               H.getf(opts, "ascii_only") == a["ao"].t, H.getf(opts, "show_contexts") == a["sc"].t,
+               H.getf(opts, "show_hidden_frames") == a["sh"].t)
+
+
+FF_UNIT = Unit("C18.Formattable.format", TY + "Formattable.format", ff_setup, post=[Clause("C18.format_passes_each_flag_in_its_own_field", ff_post)],
+               allowed_raise=lambda ctx: BoolVal(False), **{**COMMON, "known_classes": COMMON.get("known_classes", []) + ["FormatOptions"]})
+
+
+def fs_setup(ex, p):
+    self = sym_ref(p, "self", "Stack")
+    p.env.update(self=self)
+    def m_fmt(ex_, p_, args, kw, node):
+        if len(args) != 1 or kw:
+            raise Unsupported("format() call shape in __str__")      # str(x) must be the DEFAULT formatting
+        return [("ok", p_, seq_sv(fmt_public(args[0].t)))]
+    def m_join(ex_, p_, args, kw, node):
+        return [("ok", p_, SV(join_of(args[0].t, args[1].t), ty="str"))]
+    ex.unit.methods[("Stack", "format")] = m_fmt
+    ex.unit.methods[("str", "join")] = m_join
+    return dict(self=self)
+
+
+def fs_post(ctx):
+    return ctx.result.t == join_of(ctx.ex.const(ctx.p, "").t, fmt_public(ctx.args["self"].t))
+
+
+FSTR_UNIT = Unit("C18.Formattable.__str__", TY + "Formattable.__str__", fs_setup, post=[Clause("C18.str_is_concatenation_of_format_lines", fs_post)],
+                 allowed_raise=lambda ctx: BoolVal(False), **COMMON)
+
+
+# ------------------------------------------------------------------------------------------------ Stack._format
+# lines = [header] ++ for each frame that is not (hidden and not show_hidden_frames), in order: its lines, the first prefixed by
+# the start-of-frame marker and the others by the continuation marker (chosen by ascii_only) ++ leaf line ++ error lines.
+SF = TY + "Stack._format"
+frame_lines = Function("Frame._format", Val, Val, Val)        # (frame, opts) -> list of lines (callee contract: abstract)
+header_of = Function("Stack._format_header", Val, Val)
+error_lines = Function("Stack._format_error", Val, Val)
+off = Function("C18.off", IntSort(), IntSort())               # ghost: lines printed for frames [0, k)
+blk = Function("C18.blk", IntSort(), IntSort())               # ghost: which frame an output line belongs to
+from z3 import StringVal, Concat  # noqa: E402
+
+
+def abstract_lines(p, t, HB=None):
+    """facts about an abstract list of lines returned by a callee (stated over the base heap HB: callee results are input-region
+    objects, untouched by what the function under verification allocates)"""
+    H0 = HB or p.snap()
+    p.pc += [is_exact_kind(t, "list"), Val.a(t) >= 0, H0.length(t) >= 0, H0.lo_(t) == 0]
+    p.add_schema(t, lambda pth, j: Implies(And(j >= 0, j < H0.length(t)), And(is_exact_kind(H0.raw(t, j), "str"), Val.a(H0.raw(t, j)) >= 0)))
+    return SV(t, ty="list")
+
+
+def sf_setup(ex, p):
+    self = sym_ref(p, "self", "Stack")
+    fr = typed_seq(p, self, "frames", "Frame")
+    p.pc.append(p.lo(fr.t) == 0)
+    opts = sym_ref(p, "opts", "FormatOptions")
+    for f in ("ascii_only", "show_contexts", "show_hidden_frames"):
+        p.pc.append(Val.is_boolv(p.getf(opts.t, f)))
+    p.pc.append(off(0) == 0)
+    p.env.update(self=self, opts=opts)
+    def m_frame_format(ex_, p_, args, kw, node):
+        if len(args) != 2 or kw:
+            raise Unsupported("Frame._format call shape")
+        p_.ghost["ff_opts"] = p_.ghost.get("ff_opts", ()) + (args[1].t,)
+        return [("ok", p_, abstract_lines(p_, frame_lines(args[0].t, args[1].t), ex_.unit_args["HB"]))]
+    def m_header(ex_, p_, args, kw, node):
+        h = header_of(args[0].t)
+        p_.pc += [is_exact_kind(h, "str"), Val.a(h) >= 0]
+        return [("ok", p_, SV(h, ty="str"))]
+    def m_error(ex_, p_, args, kw, node):
+        return [("ok", p_, abstract_lines(p_, error_lines(args[0].t), ex_.unit_args["HB"]))]
+    ex.unit.methods.update({("Frame", "_format"): m_frame_format, ("Stack", "_format_header"): m_header, ("Stack", "_format_error"): m_error})
+    ex.unit_args = dict(self=self, frames=fr, opts=opts, HB=p.snap())
+    return ex.unit_args
+
+
+def sf_visible(H, a, f):
+    return Not(And(Val.b(H.getf(f, "hide")), Not(Val.b(H.getf(a["opts"].t, "show_hidden_frames")))))
+
+
+def sf_marker(H, a, t):
+    asc = Val.b(H.getf(a["opts"].t, "ascii_only"))
+    return If(t == 0, If(asc, StringVal("+ "), StringVal("\u2560 ")), If(asc, StringVal("| "), StringVal("\u2551 ")))
+
+
+def sf_line_ok(ctx, pth, j, upper, bmax):
+    """output line j (1 <= j < upper) is line j-1-off(b) of visible frame b = blk(j), prefixed by the marker for that position"""
+    a = ctx.ex.unit_args
+    H, H0 = ctx.H, a["HB"]
+    lines = ctx.v("lines")
+    b = blk(j)
+    f = H0.raw(a["frames"].t, b)
+    fl = frame_lines(f, a["opts"].t)
+    t = j - 1 - off(b)
+    e = pth.read(lines, j, H)
+    src = H0.raw(fl, t)
+    return Implies(And(j >= 1, j < upper),
+                   And(b >= 0, b < H0.length(a["frames"].t), b <= bmax, sf_visible(H0, a, f), t >= 0, t < H0.length(fl),
+                       Val.a(fl) >= 0, H0.lo_(fl) == 0,
+                       is_exact_kind(e, "str"), strval(Val.a(e)) == Concat(sf_marker(H0, a, t), strval(Val.a(src))),
+                       Implies(j + 1 < upper, blk(j) <= blk(j + 1))))
+
+
+def sf_outer_inv():
+    def qf(ctx):
+        lines = ctx.v("lines")
+        return And(lines == ctx.v0("lines"), ctx.H.lo_(lines) == 0, ctx.H.length(lines) == 1 + off(ctx.k), off(ctx.k) >= 0,
+                   ctx.H.raw(lines, 0) == ctx.H0.raw(lines, 0))
+    def defs(ctx):
+        a = ctx.ex.unit_args
+        ctx.p.ghost["sf_k"] = ctx.k
+        HB = a["HB"]
+        f = HB.raw(a["frames"].t, ctx.k)
+        return off(ctx.k + 1) == off(ctx.k) + If(sf_visible(HB, a, f), HB.length(frame_lines(f, a["opts"].t)), 0)
+    return Inv("C18.stack_format.frames", qf=qf, defs=defs, conts=["lines"], header="frame in self.frames",
+               foralls=[("lines", lambda ctx, pth, j: sf_line_ok(ctx, pth, j, 1 + off(ctx.k), ctx.k - 1))])
+
+
+def sf_inner_inv():
+    def qf(ctx):
+        lines = ctx.v("lines")
+        K = ctx.p.ghost["sf_k"]
+        a = ctx.ex.unit_args
+        return And(lines == ctx.v0("lines"), ctx.H.lo_(lines) == 0, ctx.H.length(lines) == 1 + off(K) + ctx.k, off(K) >= 0,
+                   ctx.H.raw(lines, 0) == ctx.H0.raw(lines, 0))
+    def step(ctx):
+        # ghost: the line just appended belongs to the current frame
+        K = ctx.p.ghost["sf_k"]
+        ctx.p.pc.append(blk(off(K) + ctx.k) == K)        # index of the new line: 1 + off(K) + (k - 1)
+        return None
+    return Inv("C18.stack_format.frame_lines", qf=qf, conts=["lines"], steps=[("C18.stack_format.ghost_owner", step)],
+               foralls=[("lines", lambda ctx, pth, j: sf_line_ok(ctx, pth, j, 1 + off(ctx.p.ghost["sf_k"]) + ctx.k, ctx.p.ghost["sf_k"]))])
+
+
+def sf_post(ctx):
+    a = ctx.args
+    H, H0 = ctx.H, a["HB"]
+    r = ctx.result.t
+    n = H0.length(a["frames"].t)
+    leaf, err = H0.getf(a["self"].t, "leaf"), H0.getf(a["self"].t, "error")
+    has_leaf, has_err = Not(Val.is_none(leaf)), Not(Val.is_none(err))
+    el = error_lines(a["self"].t)
+    base = 1 + off(n)
+    asc = Val.b(H0.getf(a["opts"].t, "ascii_only"))
+    leafline = ctx.p.read(r, base, H)
+    j = fresh_int("je")
+    eline = ctx.p.read(r, base + If(has_leaf, 1, 0) + j, H)
+    opts_seen = ctx.p.ghost.get("ff_opts", ())
+    return And(H.lo_(r) == 0,
+               H.length(r) == base + If(has_leaf, 1, 0) + If(has_err, H0.length(el), 0),
+               ctx.p.read(r, 0, H) == header_of(a["self"].t),
+               Implies(has_leaf, And(is_exact_kind(leafline, "str"),
+                                     strval(Val.a(leafline)) == Concat(If(asc, StringVal("+ "), StringVal("\u255a ")), repr_of(leaf), StringVal("\n")))),
+               Implies(And(has_err, j >= 0, j < H0.length(el)), eline == H0.raw(el, j)),
+               *[o == a["opts"].t for o in opts_seen])
+
+
+def sf_post_lines(ctx):
+    """every frame line of the result (the frames part is untouched by the leaf / error appends)"""
+    a = ctx.args
+    n = a["HB"].length(a["frames"].t)
+    j = fresh_int("jl")
+    ictx = type("C", (), {})()
+    ictx.ex, ictx.H, ictx.H0, ictx.p = ctx.ex, ctx.H, ctx.H0, ctx.p
+    ictx.v = lambda name: ctx.result.t
+    return sf_line_ok(ictx, ctx.p, j, 1 + off(n), n - 1)
+
+
+SF_UNIT = Unit("C18.Stack._format", SF, sf_setup,
+               post=[Clause("C18.stack_format.header_leaf_error_and_length", sf_post),
+                     Clause("C18.stack_format.every_frame_line_is_marker_plus_line_of_a_visible_frame", sf_post_lines)],
+               invariants={(SF, "for#1"): sf_outer_inv(), (SF, "for#2"): sf_inner_inv()},
+               allowed_raise=lambda ctx: BoolVal(False),
+               **{**COMMON, "options": dict(COMMON.get("options", {}), strings=True, iter_any_seq=True),
+                  "known_classes": list(COMMON.get("known_classes", [])) + ["FormatOptions"]},
+               assumptions=["Frame._format / _format_header / _format_error are abstract here: some list of str lines each (callee contracts; "
+                            "their text is decided by the bounded leg)",
+                            "ghost functions C18.off (running line count) and C18.blk (owner of an output line) are introduced by their "
+                            "defining equations"])
+
+UNITS = [SS_UNIT, FC_UNIT, FP_UNIT, cs_unit(), SA_UNIT, FF_UNIT, FSTR_UNIT, SF_UNIT]
